@@ -76,6 +76,10 @@ def execute(case):
             # one execution in three fails with an exception that is itself a ComponentStartError (as a nested start_component would raise)
             if case.get("seed", 0) % 3 == 0:
                 return ComponentStartError("creating" if what != "creating" else "starting", "some.other.path", Component)
+            if case.get("seed", 0) % 3 == 1 and what != "creating":
+                # ... and one in three with an exception group holding a single exception (a component's own task group with one
+                # failing subtask): the group itself is what the component raised, so the group is the cause
+                return ExceptionGroup("own task group", [Boom(what)])
             return Boom(what)
 
         async def gate(c):
